@@ -32,7 +32,7 @@ Work flow: first build the unmodified tree once (so that later rebuilds are incr
 
 Deliverables, in the directory {out} (create it):
   - patch.diff        : `git diff` of the production-code change ONLY (no tests), applicable with `git apply` at the worktree's HEAD
-  - demo/             : the demonstration (test source as a separate patch `demo.diff` and/or program files) with a README saying exactly how to run it and what it prints with/without the change
+  - demo/             : the demonstration: the test source as a separate patch `demo/demo.diff` (and/or program files), a README saying what it prints with/without the change, and an executable `demo/run.sh` that is run from the worktree root with no arguments, applies demo.diff (if any), builds what it needs (`ninja -C build -j6 test_bitcoin`), runs the demonstration, un-applies demo.diff again (also on failure), and exits 0 if and only if the demonstration PASSED (so: exit 0 on the unmodified tree, non-zero with patch.diff applied). run.sh must refer to its own files via "$(dirname "$(readlink -f "$0")")", not via a fixed path.
   - meta.json         : {{"property": "{pid}", "summary": "...one line...", "what_it_needs_to_manifest": "...", "files_changed": [...], "why_existing_tests_pass": "...", "demonstration": "...how it was run, results with and without the change...", "unit_suite_result_with_change": "...command and pass/fail counts..."}}
 If you find more than one good candidate you may deliver up to three, as {out}/1/, {out}/2/, {out}/3/ each with the three items. Quality over quantity: one subtle, realistic, well-demonstrated change is worth more than three obvious ones.
 Do not `git commit` in the worktree; leave the worktree with your LAST candidate applied or clean - the deliverables directory is what counts. When you are done, report a short summary of each candidate.
